@@ -40,6 +40,7 @@ var configs = []cfg{
 	{text: `SecRule ARGS "@validateSchema schemas/item.json" "id:1,phase:1,deny"`, files: map[string]string{"schemas/item.json": `{"type":"object","required":["sn"]}`}},
 	{text: `SecRule ARGS_GET:/^Ab/ "@streq x" "id:1,phase:1,deny"`},
 	{text: `SecRule REQUEST_HEADERS:/^Ab/ "@streq x" "id:1,phase:1,deny"`},
+	{text: `SecRule ARGS "@validateNid cl abc.def" "id:1,phase:1,deny"`},
 }
 
 var probes = []string{"abc.def", "abcxdef", "abc", "xyz", "names", "x", "ABC.DEF", "abc def", "def", `{"id":1}`, `{"sn":1}`, `{}`}
